@@ -39,3 +39,52 @@ func VerifC03_AcceptedByRestart() {
 	zz.Assert(post.Status != datatransfer.Completed && post.Status != datatransfer.Completing,
 		"a channel the responder accepted (by accepting its restart) does not complete on the local transport finishing alone")
 }
+
+// VerifC03_FinalizingReleasedOnlyByReleasingUpdate: a responder in Finalizing (transfer done,
+// waiting for the final settlement) receives an ACCEPTING validation update with an arbitrary
+// data limit, ForcePause and RequiresFinalization. It leaves Finalizing (un-paused Complete sent,
+// channel completing) exactly when the update no longer requires finalization and does not
+// otherwise leave the request paused; as long as the update still requires finalization - whatever
+// data limit it carries - the channel stays in Finalizing, still reports the responder paused,
+// and the initiator is only sent a PAUSED Complete.
+func VerifC03_FinalizingReleasedOnlyByReleasingUpdate() {
+	f, st, chid := verifInstalled(1, 0)
+	zz.Assume(st.SelfPeer == st.Responder && st.Status == datatransfer.Finalizing)
+	P := verifLimitedProgress(&st)
+	zz.Assume(P < 1<<62)
+	var res datatransfer.ValidationResult
+	res.Accepted = true
+	res.ForcePause = zz.Bool("ForcePause")
+	res.DataLimit = zz.Uint64("newLimit")
+	res.RequiresFinalization = zz.Bool("RequiresFinalization")
+	err := f.m.UpdateValidationStatus(context.Background(), chid, res)
+	zz.Settle()
+	zz.Assert(err == nil, "the update is applied")
+	post := f.g.VerifPeek(chid)
+	var last datatransfer.Response
+	for _, s := range f.net.Sent {
+		if r, ok := s.Msg.(datatransfer.Response); ok && s.To == chid.Initiator {
+			last = r
+		}
+	}
+	for _, c := range f.tr.Calls {
+		if r, ok := c.Msg.(datatransfer.Response); ok {
+			last = r
+		}
+	}
+	released := !res.ForcePause && !res.RequiresFinalization && (res.DataLimit == 0 || P < res.DataLimit)
+	if released {
+		zz.Assert(post.Status == datatransfer.Completing || post.Status == datatransfer.Completed, "a releasing update lets the responder complete")
+		zz.Assert(last != nil && last.IsComplete() && !last.IsPaused() && last.Accepted(), "the initiator is sent the final, un-paused Complete")
+		zz.Reach("released")
+	} else {
+		zz.Assert(post.Status == datatransfer.Finalizing, "otherwise the responder stays in Finalizing")
+		zz.Assert(last == nil || (last.IsPaused() && last.Accepted()), "and anything it tells the initiator is marked paused")
+		if res.RequiresFinalization && res.DataLimit != 0 && P < res.DataLimit {
+			zz.Reach("still requires finalization, new limit above progress")
+		}
+		if res.RequiresFinalization {
+			zz.Reach("still requires finalization")
+		}
+	}
+}
